@@ -167,3 +167,43 @@ def c13(run, a):
     for fd in r["findings"] or []:
         run.add_violation(fd["check"], fd["detail"][:200], {"property": "C13", "vector": fd["scenario"], "detail": fd["detail"], "how": "harness/cmd/cnidrive -mode c13"}, {"check": fd["check"]})
     run.assumptions += ["the composition is checked end to end; the kernel-side configuration done by the vendored plugins is not"]
+
+
+def c17(run, a):
+    quick = run.tier == "quick"
+    run.level = "model_checking"
+    # GC.tla: safety invariants + liveness on the behaviour spec, and the scenario vectors
+    w = run.path("tlc-GC")
+    shutil.rmtree(w, ignore_errors=True)
+    os.makedirs(w)
+    for f in glob.glob(os.path.join(vlib.SPEC, "*.tla")):
+        shutil.copy(f, w)
+    shutil.copy(os.path.join(vlib.SPEC, "mc", "gc.cfg"), w)
+    p = subprocess.run(["tlc", "-workers", "4", "-metadir", os.path.join(w, "meta"), "-config", "gc.cfg", "GC.tla"], cwd=w, stdout=subprocess.PIPE, stderr=subprocess.STDOUT, text=True, timeout=1200)
+    m = re.search(r"(\d+) states generated, (\d+) distinct states found, 0 states left", p.stdout)
+    vec = os.path.join(w, "gcvectors.json")
+    if "No error has been found" not in p.stdout or not m or not os.path.exists(vec):
+        raise vlib.Machinery("TLC on GC.tla failed:\n" + p.stdout[-2000:])
+    binp = run.build("gcdrive")
+    work = run.path("gc")
+    os.makedirs(work, exist_ok=True)
+    res = run.path("gc.json")
+    p2 = subprocess.run([binp, "-vectors", vec, "-work", work, "-n", "60" if quick else "768", "-seed", str(run.seed), "-out", res], stdout=subprocess.PIPE, stderr=subprocess.STDOUT, text=True, timeout=3000)
+    if p2.returncode != 0 or not os.path.exists(res):
+        raise vlib.Machinery("gcdrive failed:\n" + p2.stdout[-2000:])
+    r = json.load(open(res))
+    meta = json.load(open(vec))
+    cov = run.coverage
+    cov["states"], cov["transitions"] = int(m.group(2)), int(m.group(1))
+    cov["model_runs"] = [{"module": "GC", "cfg": "gc.cfg", "distinct_states": int(m.group(2)), "properties": ["NeverCollectLive", "FailSafe", "PortCleanedBeforeStateFile", "EventuallyCollected (liveness, WF on rounds)"]}]
+    cov["traces_validated_against_impl"] = r["vectors_run"]
+    cov["evaluations"] = r["phases"]
+    cov["distinct_nontrivial"] = r["vectors_run"]
+    cov["exhaustive"] = not quick
+    cov["samples"] = [meta["vectors"][100], meta["vectors"][500]]
+    cov["rule"] = ("TLC checks the behaviour spec (3 containers x 4 states, runtime up/err/down, rounds interleaved with container deaths and runtime changes; safety + liveness) and emits all %d scenarios "
+                   "(container states x <=2 runtime phases) with the files that must exist after each phase; %s run against the real collector with a fake docker daemon over real directories, "
+                   "including non-container files and both content formats of IP files" % (meta["n"], "a seeded sample is" if quick else "all are"))
+    for fd in r["findings"] or []:
+        run.add_violation(fd["check"], fd["detail"][:200], {"property": "C17", "vector": fd["vector"], "phase": fd["phase"], "detail": fd["detail"], "how": "harness/cmd/gcdrive"}, {"check": fd["check"]})
+    run.assumptions += ["docker runtime path (CONTAINERD_HOST unset); veth clean-up is not observed", "a phase lasts several GC rounds (interval 15 ms); 'within a bounded number of rounds' is checked as: gone after >= 3 inspect rounds"]
